@@ -292,8 +292,9 @@ Print Assumptions C13_set_model_rebuilds.
    the list a look-up consults is the list of the model the annotator holds NOW and its items are objects of THAT
    model ([a_owner] = [a_model]); so the look-up theorems describe its answers with st := the current structure.
    [mop_eq_free] excludes the structural-edit operation [MStruct] (removeComponent, removeVariable, ... after
-   hand-over): look-ups after such an edit rely on the hash string separating the two structures, which is compared
-   on every run but not proved.  The assignment theorems (C13_assign_complete / _preserves / _fresh and the type and
+   hand-over) because the injectivity proof of the hash string is per structure; histories WITH structural edits are
+   covered by C13_index_consistent / C13_lookups_after_structural_edits below, under the decidable premise
+   [hash_separates] for the one pair (model at the last build, model now).  The assignment theorems (C13_assign_complete / _preserves / _fresh and the type and
    item variants) are stated for EVERY structure and state, so they cover models edited structurally after hand-over,
    including equivalences whose other end is outside the model (they stay with the variable that is inside). *)
 Theorem C13_lookups_current_for_all_histories_multi : forall c sts h idss stx,
@@ -314,6 +315,56 @@ Example C13_nonvacuous_multi :
   nth 5 (snd r) RNone = REntry (Some (mk_entry "x" (vis KComp 2))).
 Proof. exact IdsWitness.multi_witness. Qed.
 Print Assumptions C13_nonvacuous_multi.
+
+(* ---------------------------------------------------------------- structural edits: the index is a function of the current model *)
+
+(* index_consistent holds after EVERY list of operations, structural edits included, for any identifiers: the stored
+   hash (if any) is the hash of the (structure, ids) pair the list was last built from, the list is the list of
+   that pair, and it belongs to the stored model *)
+Theorem C13_index_consistent : forall c sts h idss stx,
+  fx_refresh c = true -> index_consistent c (fst (mrun c sts (minit idss stx) h)).
+Proof. exact IdsMulti.mrun_index_consistent. Qed.
+Print Assumptions C13_index_consistent.
+
+(* hence: after any operations (MStruct = add / remove / replace of entities after hand-over; id edits on any model;
+   setModel of any model; the model dying; assign*; clearAllIds; look-ups; prints) followed by the annotator's
+   rebuild step [update], every look-up answers as a FRESH annotator handed the model as it is now would
+   ([fresh_cache] = the list of [set_model] on [init]), and the items are objects of the stored model - provided the
+   hash separates the model the list was last built from and the current one: [hash_separates] is a boolean
+   (assumption A-hash for that one pair; it fails only when the model changed and the serialised string did not:
+   C13_hash_ambiguous_refuted) *)
+Theorem C13_lookups_after_structural_edits : forall c sts h idss stx,
+  fx_refresh c = true ->
+  let ms := fst (mrun c sts (minit idss stx) h) in
+  let k := a_model (m_ann ms) in
+  let st := st_of sts (m_st ms) k in
+  let ids := nth_ids (m_ids ms) k in
+  a_has_model (m_ann ms) = true ->
+  (forall st0 ids0, a_hash (m_ann ms) = Some (hash_string c st0 ids0) -> a_cache (m_ann ms) = build_cache c st0 ids0 ->
+                    hash_separates c st0 ids0 st ids = true) ->
+  let s := update c st {| s_ids := ids; s_ann := m_ann ms |} in
+  a_cache (s_ann s) = fresh_cache c st ids /\ a_owner (s_ann s) = k /\
+  (forall id, item_of (a_cache (s_ann s)) id = item_of (fresh_cache c st ids) id) /\
+  ids_of (a_cache (s_ann s)) = ids_of (fresh_cache c st ids).
+Proof. exact IdsMulti.lookups_after_any_ops. Qed.
+Print Assumptions C13_lookups_after_structural_edits.
+
+Theorem C13_fresh_cache_is_the_list : forall c st ids, fresh_cache c st ids = build_cache c st ids.
+Proof. exact IdsMulti.fresh_cache_eq. Qed.
+Print Assumptions C13_fresh_cache_is_the_list.
+
+(* non-vacuity: a component is removed after hand-over (its variable stays equivalent from outside); the premise
+   holds, ids() answers for the edited model, and assignAllIds then numbers the mapping/connection of the outside end *)
+Example C13_nonvacuous_structural_edit :
+  let h := [MEdit 0 4 "a"; MEdit 0 7 "b"; MEdit 0 8 "m"; MSetModel 0; MOp OIds; MStruct 0 1; MOp OIds; MOp OAssignAll] in
+  let r := mrun cfg_fixed [st_eq; st_eq_removed] (minit [ids10] [0]) h in
+  let ids := ["";"";"";"";"a";"";"";"b";"m";""] in
+  nth 4 (snd r) RNone = RStrs ["a"; "b"; "m"] /\ nth 6 (snd r) RNone = RStrs ["a"; "m"] /\
+  hash_separates cfg_fixed st_eq ids st_eq_removed ids = true /\
+  a_has_model (m_ann (fst r)) = true /\
+  nth_ids (m_ids (fst r)) 0 = ["b4da55"; "b4da58"; "b4da56"; ""; "a"; ""; ""; "b"; "m"; "b4da57"].
+Proof. exact IdsWitness.structural_edit_witness. Qed.
+Print Assumptions C13_nonvacuous_structural_edit.
 
 (* DESIGN row 21, the code before fixes/C13-hash-equivalence-ids.diff: the hash ignored mapping and connection ids *)
 Theorem C13_hash_blind_refuted :
